@@ -287,16 +287,35 @@ func c46GenKey(rng *rand.Rand) uint64 {
 	return rng.Uint64()
 }
 
+// c46GenHidden picks the CPUs whose core topology the code cannot read (CPU 0 in half of the draws).
+func c46GenHidden(rng *rand.Rand, allowed []int) map[int]bool {
+	h := map[int]bool{}
+	if rng.IntN(2) == 0 {
+		h[0] = true
+	}
+	p := []int{0, 2, 5}[rng.IntN(3)]
+	for _, c := range allowed {
+		if c != 0 && rng.IntN(10) < p {
+			h[c] = true
+		}
+	}
+	return h
+}
+
 // c46Topology builds the topology value handed to arrange from the ground truth, with core group
 // labels chosen by labelSeed (labels are arbitrary: only equality is meaningful).
-func c46Topology(m *c46Machine, cands []int, labelSeed uint64) topology {
+func c46Topology(m *c46Machine, cands []int, labelSeed uint64, hidden map[int]bool) topology {
 	t := topology{nodeOf: map[int]int{}, coreOf: map[int]int{}, zeroCore: -1}
 	lr := rand.New(rand.NewPCG(labelSeed, 46))
-	labels := lr.Perm(len(m.ids) + 8)
-	for _, c := range cands {
+	labels := lr.Perm(2*len(m.ids) + 8)
+	for i, c := range cands {
 		t.nodeOf[c] = m.node[c]
+		if hidden[c] { // what coreGroups does for a CPU whose topology files cannot be read: a group of its own
+			t.coreOf[c] = labels[len(m.ids)+i]
+			continue
+		}
 		t.coreOf[c] = labels[m.core[c]]
-		if m.core[c] == m.core[0] {
+		if m.core[c] == m.core[0] && !hidden[0] {
 			t.zeroCore = labels[m.core[0]]
 		}
 	}
@@ -309,6 +328,7 @@ func c46Topology(m *c46Machine, cands []int, labelSeed uint64) topology {
 type c46Case struct {
 	m        *c46Machine
 	flat     bool // topology unknown to the code: every CPU is its own core on node 0
+	hidden   map[int]bool // CPUs whose core topology is unreadable: the code must treat each as a core of its own (CPU 0 included)
 	allowed  []int
 	perf     []int
 	routines int
@@ -329,6 +349,9 @@ func (c *c46Case) coreOf(cpu int) int {
 	if c.flat {
 		return cpu
 	}
+	if c.hidden[cpu] {
+		return -1000 - cpu
+	}
 	return c.m.core[cpu]
 }
 
@@ -341,6 +364,12 @@ func (c *c46Case) record(out []int) map[string]any {
 		cores[strconv.Itoa(cpu)] = c.coreOf(cpu)
 	}
 	rec["node_of"], rec["core_of"], rec["cpu0_core"] = nodes, cores, c.coreOf(0)
+	var hid []int
+	for cpu := range c.hidden {
+		hid = append(hid, cpu)
+	}
+	sort.Ints(hid)
+	rec["topology_unreadable"] = hid
 	return rec
 }
 
@@ -492,7 +521,15 @@ func c46Check(r *verifkit.Reporter, c *c46Case, out []int) {
 	if c.routines > len(cands) {
 		rel = "r>cands"
 	}
-	r.DistinctClass(fmt.Sprintf("%s nodes=%d smt=%d flat=%v %s %s zero=%s %s", c.mode, c.m.nodes, c.m.smt, c.flat, perfClass, nodeRule, zeroClass, rel))
+	hid := "topo-readable"
+	switch {
+	case c.hidden[0] && outSet[0]:
+		hid = "cpu0-topology-unreadable"
+		r.Count("lists_with_cpu0_of_unknown_core", 1)
+	case len(c.hidden) > 0:
+		hid = "some-topology-unreadable"
+	}
+	r.DistinctClass(fmt.Sprintf("%s nodes=%d smt=%d flat=%v %s %s zero=%s %s %s", c.mode, c.m.nodes, c.m.smt, c.flat, perfClass, nodeRule, zeroClass, rel, hid))
 	h := fnv.New64a()
 	fmt.Fprintf(h, "%s|%v|%v|%v|%d|%d|%v", c.m.desc, c.m.ids, c.allowed, c.perf, c.routines, c.key, c.flat)
 	for _, cpu := range c.allowed {
@@ -529,6 +566,10 @@ func TestVerifC46Arrange(t *testing.T) {
 		c.routines = c46GenRoutines(rng, m, c.allowed)
 		c.key = c46GenKey(rng)
 		c.flat = rng.IntN(10) == 0
+		if !c.flat && rng.IntN(6) == 0 {
+			c.hidden = c46GenHidden(rng, c.allowed)
+			c.aKind += "+hidden-topology"
+		}
 		var out, again []int
 		r.Pre("arrange case %d %s allowed=%v perf=%v routines=%d key=%d flat=%v", i, m.desc, c.allowed, c.perf, c.routines, c.key, c.flat)
 		if r.Guard("C46/panic", func() any { return c.record(nil) }, func() {
@@ -538,7 +579,7 @@ func TestVerifC46Arrange(t *testing.T) {
 			if c.flat {
 				t1, t2 = flatTopology(cands), flatTopology(cands2)
 			} else {
-				t1, t2 = c46Topology(m, cands, 1), c46Topology(m, cands2, uint64(i)+2)
+				t1, t2 = c46Topology(m, cands, 1, c.hidden), c46Topology(m, cands2, uint64(i)+2, c.hidden)
 			}
 			out = arrange(cands, t1, c.routines, splitmix64(c.key))
 			again = arrange(cands2, t2, c.routines, splitmix64(c.key))
@@ -642,10 +683,30 @@ func TestVerifC46Sysfs(t *testing.T) {
 			}
 		}
 		var pcores []int
+		var hidden map[int]bool
+		if rng.IntN(4) == 0 { // masked / partial sysfs: some cpu*/topology files missing or unparsable
+			hidden = c46GenHidden(rng, m.ids)
+		}
 		for _, c := range m.ids {
 			d := filepath.Join(cpuDir, fmt.Sprintf("cpu%d", c))
-			c46WriteFile(t, filepath.Join(d, "topology", "physical_package_id"), fmt.Sprintf("%d\n", m.pkg[c]))
-			c46WriteFile(t, filepath.Join(d, "topology", "core_id"), fmt.Sprintf("%d\n", m.cid[c]))
+			form := 0
+			if hidden[c] {
+				form = 1 + rng.IntN(4)
+			}
+			switch form {
+			case 0:
+				c46WriteFile(t, filepath.Join(d, "topology", "physical_package_id"), fmt.Sprintf("%d\n", m.pkg[c]))
+				c46WriteFile(t, filepath.Join(d, "topology", "core_id"), fmt.Sprintf("%d\n", m.cid[c]))
+			case 1: // no topology directory at all
+				os.MkdirAll(d, 0o755)
+			case 2: // only the package id
+				c46WriteFile(t, filepath.Join(d, "topology", "physical_package_id"), fmt.Sprintf("%d\n", m.pkg[c]))
+			case 3: // only the core id
+				c46WriteFile(t, filepath.Join(d, "topology", "core_id"), fmt.Sprintf("%d\n", m.cid[c]))
+			case 4: // unparsable core id
+				c46WriteFile(t, filepath.Join(d, "topology", "physical_package_id"), fmt.Sprintf("%d\n", m.pkg[c]))
+				c46WriteFile(t, filepath.Join(d, "topology", "core_id"), "\n")
+			}
 			fast := fastCore[m.core[c]]
 			if fast {
 				pcores = append(pcores, c)
@@ -672,7 +733,7 @@ func TestVerifC46Sysfs(t *testing.T) {
 		}
 		for k := 0; k < perMachine; k++ {
 			crng := verifkit.SubRand("C46sysfs-case", mi*perMachine+k)
-			c := &c46Case{m: m, mode: "sysfs"}
+			c := &c46Case{m: m, mode: "sysfs", hidden: hidden}
 			c.allowed, c.aKind = c46GenAllowed(crng, m)
 			c.routines = c46GenRoutines(crng, m, c.allowed)
 			c.key = c46GenKey(crng)
